@@ -229,14 +229,16 @@ where
             );
         }
 
-        // spawn a thread to forward the fingerprints to check
-        handles.push(std::thread::spawn(move || {
+        // spawn a thread to forward the fingerprints to check. It runs until the checker (which
+        // owns the sending side) is dropped, so it must not be among the handles that `join`
+        // waits for.
+        std::thread::spawn(move || {
             for fingerprint in controlflow_to_check_receiver {
                 for sender in &controlflow_channels {
                     let _ = sender.send(fingerprint);
                 }
             }
-        }));
+        });
 
         OnDemandChecker {
             model,
